@@ -128,7 +128,16 @@ class Impl:
         observation it is kept in self.last_alt and judged as a second observation of the same input.
         A missing line number / line text (None) is an observation of its own: ('crash', 'NoSourceLine')."""
         self.last_alt = None
-        rp = pathlib.Path(scratch) / root_name
+        relative = root_name.startswith('rel:')
+        rp = pathlib.Path(root_given(root_name)) if relative else pathlib.Path(scratch) / root_given(root_name)
+        old_cwd = os.getcwd()
+        os.chdir(scratch)
+        try:
+            return self._parse(scratch, rp)
+        finally:
+            os.chdir(old_cwd)
+
+    def _parse(self, scratch, rp):
 
         def cpath(p):
             s = str(p)
@@ -256,6 +265,11 @@ class Disk:
             p = os.path.join(scratch, name)
             os.makedirs(os.path.dirname(p), exist_ok=True)
             os.symlink(target, p)
+        # ways to name one file differently: sub/../F, ld/F (ld -> .), lr.case -> r.case
+        os.makedirs(os.path.join(scratch, 'sub'), exist_ok=True)
+        os.symlink('.', os.path.join(scratch, 'ld'))
+        if ROOT in files and 'lr.case' not in self.links:
+            os.symlink(ROOT, os.path.join(scratch, 'lr.case'))
         # identities
         self.fid = {}
         for name in sorted(files):
@@ -298,9 +312,9 @@ class Disk:
                                                          'None' if target is None else '(Some (%s, %s))' % (cN(target[0]), cN(target[1]))))
         return clist(rows) if rows else '(@nil (N * text * fsres))'
 
-    def why(self, chain):
+    def why(self, chain, root=ROOT):
         """Missing / Cyclic for an access error: can the file named by the last directive of the chain be opened?"""
-        d = pathlib.Path(self.scratch)
+        d = (pathlib.Path(self.scratch) / root_given(root)).parent
         p = None
         for (_path, (_ln, lines)) in chain:
             parts = lines[0].split()
@@ -353,10 +367,20 @@ def oracle_table(im, disk):
     return clist(rows) if rows else '(@nil (N * nat * nat * list (sec * ires)))'
 
 
+ROOT_NAMINGS = [ROOT, 'sub/../' + ROOT, 'ld/' + ROOT, 'lr.case', 'rel:' + ROOT, 'rel:sub/../' + ROOT, 'rel:ld/' + ROOT,
+                'rel:lr.case', 'ld/ld/sub/../' + ROOT]
+
+
+def root_given(root):
+    """the path of the test case file as given to the parser: relative to the scratch dir; 'rel:' = given as a
+    relative path with the scratch dir as current directory, otherwise as an absolute path"""
+    return root[4:] if root.startswith('rel:') else root
+
+
 def observe(im, disk, root=ROOT):
     o = im.parse(disk.scratch, root)
     if o[0] == 'access':
-        o = o + (disk.why(o[3]),)
+        o = o + (disk.why(o[3], root),)
     return o
 
 
@@ -368,10 +392,13 @@ def observe_alt(im):
 def dcase_term(im, disk, o, root=ROOT):
     files = clist(['(%s, %s)' % (cN(fid), c_lines(split_py(disk.files[name])))
                    for fid, name in sorted(disk.fid_name.items())])
-    root_fid = disk.fid[os.path.realpath(os.path.join(disk.scratch, root))]
-    root_dir = disk.dirs[os.path.realpath(disk.scratch)]
-    return '(DCase %s %s %s %s %s %s %s)' % (files, disk.fs_table(), oracle_table(im, disk), cN(root_fid), ctext(root),
-                                             cN(root_dir), c_obs(o))
+    # the identity of the test case file goes through the same oracle as that of included files: its RESOLVED path;
+    # inclusion paths in it are relative to the directory of the path AS GIVEN
+    given = os.path.join(disk.scratch, root_given(root))
+    root_fid = disk.fid[os.path.realpath(given)]
+    root_dir = disk.dirs[os.path.realpath(os.path.dirname(given))]
+    return '(DCase %s %s %s %s %s %s %s)' % (files, disk.fs_table(), oracle_table(im, disk), cN(root_fid),
+                                             ctext(root_given(root)), cN(root_dir), c_obs(o))
 
 
 # =============================================================================================
@@ -524,6 +551,10 @@ def rel_token(from_name, to_name, rng):
         return './' + tok
     if q == 1 and not tok.startswith('..'):
         return ('sub/../' if fd == '' else '../sub/') + tok
+    if q == 2 and fd == '':
+        return 'ld/' + tok
+    if q == 3 and to_name == ROOT:
+        return os.path.relpath('lr.case', fd or '.')
     return tok
 
 
@@ -810,8 +841,9 @@ def is_nontrivial(files, o):
     return False
 
 
-def describe(files, links, o):
-    d = {'files': files, 'symlinks': links}
+def describe(files, links, o, root=ROOT):
+    d = {'files': files, 'symlinks': links, 'root': root,
+         'note': "root 'rel:P' = test case given as relative path P with the directory of the files as cwd; ld -> . ; lr.case -> r.case"}
     if o[0] == 'ok':
         d['observed'] = {s: [{'type': e[0], 'first_line': e[1][0], 'lines': e[1][1], 'file': e[2],
                               'included_via': [[l[0], l[1][0], l[1][1][0]] for l in e[3]]} for e in es]
@@ -844,15 +876,21 @@ def run(ctx, res, scale=1):
 
     dterms, dmeta = [], []
 
-    def add_case(files, links, tag):
+    counter = [0]
+
+    def add_case(files, links, tag, root=None):
+        if root is None:  # rotate through the ways of naming the test case file
+            root = ROOT_NAMINGS[counter[0] % len(ROOT_NAMINGS)]
+            counter[0] += 1
         disk = Disk(scratch, files, links)
-        o = observe(im, disk)
-        dterms.append(dcase_term(im, disk, o))
-        dmeta.append((files, links, o))
+        o = observe(im, disk, root)
+        dterms.append(dcase_term(im, disk, o, root))
+        dmeta.append((files, links, o, root))
+        res.count('test case file named as: ' + root)
         o2 = observe_alt(im)
         if o2 is not None:
-            dterms.append(dcase_term(im, disk, o2))
-            dmeta.append((files, links, o2))
+            dterms.append(dcase_term(im, disk, o2, root))
+            dmeta.append((files, links, o2, root))
             res.count('second observation: source attribute differs from the source of the location')
         res.count(tag)
         res.count('outcome: ' + (o[0] if o[0] != 'access' else 'access/' + o[4]))
@@ -866,7 +904,7 @@ def run(ctx, res, scale=1):
         for fn in sorted(os.listdir(cdir)):
             if fn.endswith('.json'):
                 c = json.load(open(os.path.join(cdir, fn)))
-                add_case(c['files'], c.get('symlinks', {}), 'corpus')
+                add_case(c['files'], c.get('symlinks', {}), 'corpus', c.get('root', ROOT))
     # exhaustive
     for doc in exhaustive_docs(ex_len):
         lines = [l for s in doc for l in CANON[s]]
@@ -954,8 +992,8 @@ def run(ctx, res, scale=1):
         for i, t in zip(pb[:5], outs or []):
             expected[i] = decode_coq(t)
     for i in pb:
-        files, links, o = dmeta[i]
-        case = describe(files, links, o)
+        files, links, o, root = dmeta[i]
+        case = describe(files, links, o, root)
         if i in expected:
             case['expected_by_declarative_reading'] = expected[i]
         res.prop_failures.append(Failure('property', case,
@@ -963,8 +1001,8 @@ def run(ctx, res, scale=1):
                                          'files (Spec.C07.flat_root), or an observed element / error report is not located '
                                          'at the lines of the file it names', finding=finding_for(files, o)))
     for i in cb:
-        files, links, o = dmeta[i]
-        res.disagreements.append(Failure('correspondence', describe(files, links, o),
+        files, links, o, root = dmeta[i]
+        res.disagreements.append(Failure('correspondence', describe(files, links, o, root),
                                          'Model.Doc.parse_root differs from test_case_parser.new_parser(..).apply'))
     cb, pb, errs = common.run_shards('C07', IMPORTS, 'check_pcase', pterms, shard_size=60, tag='pcases')
     res.errors += errs
@@ -1017,9 +1055,10 @@ def replay(ctx, payload):
         scratch_root = tempfile.mkdtemp(prefix='c07-replay-', dir=ctx.work)
         disk = Disk(os.path.join(scratch_root, 'd'), case['files'], case.get('symlinks'))
         im = Impl()
-        o = observe(im, disk)
-        print('observed now:', json.dumps(describe(case['files'], case.get('symlinks'), o), indent=1, default=str))
-        out, raw = common.coq_eval_terms('C07', IMPORTS, ['let c := %s in (model_obs c, check_dcase c)' % dcase_term(im, disk, o)])
+        root = case.get('root', ROOT)
+        o = observe(im, disk, root)
+        print('observed now:', json.dumps(describe(case['files'], case.get('symlinks'), o, root), indent=1, default=str))
+        out, raw = common.coq_eval_terms('C07', IMPORTS, ['let c := %s in (model_obs c, check_dcase c)' % dcase_term(im, disk, o, root)])
         print('model / check:', [decode_coq(x) for x in out] if out else raw[-2000:])
         shutil.rmtree(scratch_root, ignore_errors=True)
     elif case and 'parse_source' in case:
